@@ -71,13 +71,20 @@ def gen_case(rng):
     return fields, checks, header, table
 
 
+def structure_features(rows):
+    """Header rows, outline groups, merged cells, annotations: switched on depending on the shape of the table."""
+    n = len(rows) + sum(len(r) for r in rows[:2])
+    return tuple(f for k, f in enumerate(storage.STRUCTURE_ODS_FEATURES) if (n >> k) & 1)
+
+
 def store_cid(ctx, rows, how, tag):
     path = os.path.join(ctx.tmp, "cid_%s.%s" % (tag, how))
     if how == "csv":
-        with open(path, "w", encoding="utf-8", newline="") as f:
+        # every third CSV carries the byte order mark that "CSV UTF-8" exports of spreadsheet applications start with
+        with open(path, "w", encoding="utf-8-sig" if len(rows) % 3 == 0 else "utf-8", newline="") as f:
             f.write(storage.delimited_text(rows))
     elif how == "ods":
-        storage.write_ods(path, [rows], ("s", "colruns"))
+        storage.write_ods(path, [rows], ("s", "colruns") + structure_features(rows))
     else:
         storage.write_xlsx(path, [rows])
     return path
@@ -90,7 +97,7 @@ def store_data(ctx, table, fmt):
             f.write(storage.delimited_text(table))
     elif fmt == "ods":
         path = os.path.join(ctx.tmp, "data.ods")
-        storage.write_ods(path, [table], ("s", "colruns", "rowruns"))
+        storage.write_ods(path, [table], ("s", "colruns", "rowruns") + structure_features(table))
     else:
         path = os.path.join(ctx.tmp, "data.xlsx")
         storage.write_xlsx(path, [table])
